@@ -325,11 +325,13 @@ def worker(args: Dict[str, Any]) -> Dict[str, Any]:
         else:
             exe = executor_for(backend)
         results[f"{name}|{backend}|{int(reuse)}"] = translate_inline(exe, pq, out / f"probe_{name}_{backend}_{int(reuse)}", shared=shared_asts)
+    import shutil
+    shutil.rmtree(out, ignore_errors=True)   # everything needed was read into the result: keep the scratch area bounded
     return {"trace": trace, "probes": results}
 
 
 def run(ctx: Ctx) -> int:
-    nh = ctx.pick(260, 2500)
+    nh = ctx.pick(260, 1500)
     maxlen = ctx.pick(6, 25)
     plist = [(name, b, q, reuse) for b in BACKENDS for name, q in probes(b) for reuse in (False, True)]
     # baseline: every probe as the first query of a pristine process (one forked child per probe)
